@@ -48,7 +48,7 @@ def elifStrs : List (Token × Option Expr × Block) → Bytes
   | [] => []
   | (_, c, bl) :: r => b " } else if (" ++ optStr c ++ b ") { " ++ pBlock bl ++ b " }" ++ elifStrs r
 def pStmt : Stmt → Bytes
-  | .ret true _ v => b "<%= " ++ optStr v ++ b "; %>"
+  | .ret true _ v => [60, 37, 61, 32] ++ optStr v ++ [59, 32, 37, 62]   -- "<%= " … "; %>" (byte literals: `b "…"` does not reduce in proofs)
   | .ret false _ v => b "return " ++ optStr v ++ b ";"
   | .let_ t n v => t.lit ++ [32] ++ (match n with | some i => i.str | none => []) ++ b " = " ++ optStr v ++ [59]
   | .es _ e => optStr e
